@@ -20,6 +20,7 @@ from octave_mcp.schemas.loader import load_schema_by_name
 
 from .. import docmodel as dm
 from .. import schemalab as sl
+from ..astmap import dmap, norm
 from ..explore import Res
 from ..render import choice_space, render
 from .c02 import kinds_of
@@ -277,6 +278,40 @@ def check_frontmatter(case) -> Res:
     return Res("ok" if not viol else "violations", nontrivial=(label, st), extra_nontrivial=texts, violations=uniq, transitions=4 * (len(texts) + 3))
 
 
+def check_policy(case) -> Res:
+    """read-only validation under every UNKNOWN_FIELDS policy: an undeclared field stays in the caller's document and in the canonical text"""
+    pol, profile = case
+    name = "RSP" + (pol or "NONE")
+    sl.install_schema(name, sl.schema_text(name, FIELDS, pol))
+    docs = dict(variant_docs())
+    viol = []
+    steps = 0
+    for label in ("unknown-field", "valid", "duplicate-field"):
+        d = json.loads(json.dumps(docs[label]))
+        d["body"][0][1] = name
+        x0 = render(d, {}).text
+        plain = emit(parse_with_warnings(x0)[0])
+        cs = dict(label=label, doc=d, choices={}, policy=pol, profile=profile)
+        r = sl.call("v", content=x0, schema=name, profile=profile)
+        steps += 1
+        if r.get("status") == "success" and r.get("canonical") != plain:
+            viol.append(dict(descriptor=f"fix-off-canonical-differs-from-plain:{profile}:policy-{pol}", case=cs, observed=r.get("canonical"), expected=plain))
+        doc = parse_with_warnings(x0)[0]
+        before = norm(dmap(doc))
+        sd = load_schema_by_name(name)
+        Validator(schema=None).validate(doc, strict=(profile == "STRICT"), section_schemas={sd.name: sd})
+        steps += 1
+        if norm(dmap(doc)) != before:
+            viol.append(dict(descriptor=f"validator-mutates-the-document:policy-{pol}", case=cs, observed=json.dumps(norm(dmap(doc)), ensure_ascii=False)[:400],
+                             expected="validation is read-only"))
+    uniq, seen = [], set()
+    for v in viol:
+        if v["descriptor"] not in seen:
+            seen.add(v["descriptor"])
+            uniq.append(v)
+    return Res("ok" if not viol else "violations", nontrivial=(pol, profile), violations=uniq, transitions=steps)
+
+
 def check_text_variant(case) -> Res:
     """x (hand-spelled number) vs canonical(x) vs canonical(canonical(x))."""
     name = case
@@ -359,6 +394,7 @@ def run(ctx):
     parts = 1 if ctx.quick else 12
     ctx.explore("respell", docs if parts == 1 else [(l, d, i, parts) for (l, d) in docs for i in range(parts)], check_doc, chunk=1)
     ctx.explore("number_spellings", sorted(TEXT_VARIANTS), check_text_variant, chunk=1)
+    ctx.explore("policies", [(pol, prof) for pol in ("REJECT", "WARN", "IGNORE", None) for prof in PROFILES], check_policy, chunk=1)
     ctx.explore("frontmatter", fm_docs(), check_frontmatter, chunk=1)
     ctx.explore("cli", cli_docs(), check_cli, chunk=1)
     sl.cleanup()
@@ -369,6 +405,8 @@ def replay(ctx, rp):
     try:
         if rp.get("subcheck") == "number_spellings":
             return check_text_variant(case["variant"]).violations
+        if rp.get("subcheck") == "policies":
+            return check_policy((case["policy"], case["profile"])).violations
         fn = {"cli": check_cli, "frontmatter": check_frontmatter}.get(rp.get("subcheck"), check_doc)
         r = fn((case["label"], case["doc"]))
         return [v for v in r.violations if v["descriptor"] == rp.get("descriptor")] or r.violations
